@@ -320,6 +320,44 @@ func runCheck(prop string, cfg *propCfg, tier string, seed int64) int {
 		}
 		hashes = append(hashes, r.hashes...)
 	}
+	// transcript digests must agree across build variants
+	type dv struct{ variant, val string }
+	dig := map[string][]dv{}
+	for _, r := range all {
+		if r.sum == nil {
+			continue
+		}
+		for k, v := range r.sum.Digests {
+			dig[k] = append(dig[k], dv{r.variant, v})
+		}
+	}
+	dkeys := make([]string, 0, len(dig))
+	for k := range dig {
+		dkeys = append(dkeys, k)
+	}
+	sort.Strings(dkeys)
+	ndig := 0
+	reported := map[string]bool{}
+	for _, k := range dkeys {
+		vs := dig[k]
+		ndig += len(vs)
+		if len(variants) > 1 && len(vs) < 2 {
+			inconcl = append(inconcl, fmt.Sprintf("transcript chunk %s was produced by %d variant(s) only", k, len(vs)))
+		}
+		for _, x := range vs[1:] {
+			shard := k[:strings.IndexByte(k, '/')]
+			if x.val != vs[0].val && !reported[shard] {
+				reported[shard] = true // the first differing chunk of a shard localises the divergence; later chunks differ as a consequence
+				var sh, ch int
+				fmt.Sscanf(k, "shard%d/chunk%d", &sh, &ch)
+				viol = append(viol, hx.Violation{Prop: prop, Idx: -int64(sh*100000+ch) - 1, Kind: "transcript-mismatch", Detail: fmt.Sprintf("public-API transcript %s differs between build variants %s (%s) and %s (%s)", k, vs[0].variant, vs[0].val, x.variant, x.val)})
+				m.NViol++
+			}
+		}
+	}
+	if ndig > 0 {
+		m.Counters["transcript_chunk_digests_compared"] = int64(ndig)
+	}
 	sort.Slice(hashes, func(i, j int) bool { return hashes[i] < hashes[j] })
 	distinct := int64(0)
 	for i := range hashes {
@@ -516,6 +554,10 @@ func replay(path string) {
 	if err != nil {
 		die(2, "INCONCLUSIVE build failed:\n%v", err)
 	}
+	if rec.Case < 0 {
+		replayTranscript(rec.Property, rec.Tier, rec.Seed, int(-(rec.Case+1))/100000, int(-(rec.Case+1))%100000, cfg)
+		return
+	}
 	cmd := exec.Command(bin, "-prop", rec.Property, "-tier", rec.Tier, "-seed", fmt.Sprint(rec.Seed), "-replay", fmt.Sprint(rec.Case))
 	cmd.Env = append(env(), v.Env...)
 	cmd.Stdout, cmd.Stderr = os.Stdout, os.Stderr
@@ -525,4 +567,41 @@ func replay(path string) {
 		}
 		os.Exit(2)
 	}
+}
+
+// replayTranscript re-runs one shard's transcript under every build variant and prints the first differing step.
+func replayTranscript(prop, tier string, seed int64, shard, chunk int, cfg *propCfg) {
+	nshards := cfg.Shards
+	if nshards == 0 {
+		nshards = runtime.NumCPU()
+	}
+	var outs [][]string
+	var names []string
+	for _, v := range cfg.Variants {
+		bin, err := buildWorker(v)
+		if err != nil {
+			die(2, "INCONCLUSIVE build of %s failed:\n%v", v.Name, err)
+		}
+		cmd := exec.Command(bin, "-prop", prop, "-tier", tier, "-seed", fmt.Sprint(seed), "-shard", fmt.Sprint(shard), "-nshards", fmt.Sprint(nshards), "-dumpchunk", fmt.Sprint(chunk), "-transcriptonly")
+		cmd.Env = append(env(), v.Env...)
+		out, _ := cmd.Output()
+		var lines []string
+		for _, l := range strings.Split(string(out), "\n") {
+			if strings.HasPrefix(l, "T ") {
+				lines = append(lines, l)
+			}
+		}
+		outs = append(outs, lines)
+		names = append(names, v.Name)
+	}
+	for i := 1; i < len(outs); i++ {
+		for j := 0; j < len(outs[0]) && j < len(outs[i]); j++ {
+			if outs[0][j] != outs[i][j] {
+				fmt.Printf("first differing step between %s and %s:\n  %s: %s\n  %s: %s\n", names[0], names[i], names[0], trunc(outs[0][j], 1500), names[i], trunc(outs[i][j], 1500))
+				fmt.Println("REPLAY: 1 violation(s) reproduced")
+				os.Exit(1)
+			}
+		}
+	}
+	fmt.Println("REPLAY: transcripts agree on this tree")
 }
